@@ -21,7 +21,9 @@ import (
 
 	"github.com/awslabs/ar-go-tools/analysis/config"
 	"github.com/awslabs/ar-go-tools/analysis/dataflow"
+	"golang.org/x/tools/go/packages"
 	"golang.org/x/tools/go/ssa"
+	"golang.org/x/tools/go/ssa/ssautil"
 	"verif/harness/gen"
 	"verif/harness/lib"
 	"verif/harness/ptrfacts"
@@ -72,6 +74,8 @@ type Result struct {
 	AliasDiffer   int
 	Samples       []any
 	Timing        map[string]float64
+	ssaProg       *ssa.Program
+	pkgs          []*packages.Package
 }
 
 var goEnv = append(os.Environ(), "GOFLAGS=-mod=mod", "GOPROXY=off", "GOSUMDB=off", "GOTOOLCHAIN=local", "GOWORK=off")
@@ -113,6 +117,11 @@ func isHelper(name string) bool {
 
 // Run does everything up to (and including) the native runs. nil on a harness failure (already reported).
 func Run(prop, sub string, pp *gen.PtrProg, rep *lib.Report) *Result {
+	return RunWith(prop, sub, pp, rep, "oracle_c11", nil)
+}
+
+// RunWith is Run with a chosen oracle and extra oracle input lines computed from the dump.
+func RunWith(prop, sub string, pp *gen.PtrProg, rep *lib.Report, oracle string, extra func(*Result) string) *Result {
 	res := &Result{Prop: prop, Prog: pp, FactsOf: map[int][]string{}, Probes: map[int]*Probe{},
 		ProbeAddrs: map[int]map[uint64]bool{}, Events: map[[2]int]bool{}, SiteInstr: map[int]ssa.CallInstruction{},
 		FidFn: map[int]*ssa.Function{}, Timing: map[string]float64{}}
@@ -156,6 +165,7 @@ func Run(prop, sub string, pp *gen.PtrProg, rep *lib.Report) *Result {
 		return nil
 	}
 	res.State = state
+	res.ssaProg, res.pkgs = prog, pkgs
 	lap("analyze")
 	d := ptrfacts.New(state)
 	res.Dump = d
@@ -167,8 +177,15 @@ func Run(prop, sub string, pp *gen.PtrProg, rep *lib.Report) *Result {
 			res.NFacts++
 		}
 	}
-	// probes, sites, function ids
-	for _, fn := range d.Funcs {
+	// probes, sites, function ids (over every function of the program, analysed or not)
+	var allFns []*ssa.Function
+	for fn := range ssautil.AllFunctions(prog) {
+		if fn.Blocks != nil && (fn.Pkg == nil || fn.Pkg.Pkg.Path() == "vprog") {
+			allFns = append(allFns, fn)
+		}
+	}
+	sort.Slice(allFns, func(i, j int) bool { return allFns[i].String() < allFns[j].String() })
+	for _, fn := range allFns {
 		for _, b := range fn.Blocks {
 			for _, ins := range b.Instrs {
 				call, ok := ins.(ssa.CallInstruction)
@@ -210,8 +227,11 @@ func Run(prop, sub string, pp *gen.PtrProg, rep *lib.Report) *Result {
 	}
 	lap("dump")
 	input := d.Text()
+	if extra != nil {
+		input += extra(res)
+	}
 	os.WriteFile(filepath.Join(dir, "oracle_in.txt"), []byte(input), 0o644)
-	out, err := lib.RunOracle("oracle_c11", []byte(input))
+	out, err := lib.RunOracle(oracle, []byte(input))
 	if err != nil || len(out) == 0 || !strings.HasPrefix(out[0], "closed ") {
 		rep.Fail("oracle-run", fmt.Sprintf("oracle failed: %v %v", err, out), nil, true)
 		<-natDone
@@ -501,4 +521,64 @@ func Replay(res *Result, c int, what string) []byte {
 // Cleanup removes the big scratch files of a run that found nothing.
 func (res *Result) Cleanup() {
 	os.Remove(filepath.Join(res.Dir, "nat", "prog"))
+}
+
+// Canary re-runs the real pointer analysis with one generated function listed as an
+// `unsafe-no-effect-function` (the documented unsound option: the function's body generates no
+// constraints) and evaluates the criteria on that result.  The criterion must then FAIL, and only inside
+// that function or at call instructions that can call it.  This is a sensitivity self-check of the whole
+// tie (dumper + oracle) performed on every run; it says nothing about the unchanged configuration.
+// Returns (number of failing rule instances, number of them at unexpected places, description).
+func Canary(res *Result, victim *ssa.Function) (int, int, string) {
+	cfg := config.NewDefault()
+	cfg.LogLevel = int(config.ErrLevel)
+	cfg.PointerConfig.UnsafeNoEffectFunctions = []string{victim.String()}
+	state, err := dataflow.NewInitializedAnalyzerState(res.ssaProg, res.pkgs, config.NewLogGroup(cfg), cfg)
+	if err != nil || state.PointerAnalysis == nil {
+		return 0, 0, fmt.Sprintf("analysis with a no-effect function failed: %v", err)
+	}
+	d := ptrfacts.New(state)
+	out, err := lib.RunOracle("oracle_c11", []byte(d.Text()))
+	if err != nil || len(out) == 0 {
+		return 0, 0, fmt.Sprintf("oracle failed: %v", err)
+	}
+	cg := state.PointerAnalysis.CallGraph
+	fails, stray := 0, 0
+	var strays []string
+	for _, l := range out[1:] {
+		var f, idx int
+		kind := ""
+		if n, _ := fmt.Sscanf(l, "fail ptr %d %d", &f, &idx); n == 2 {
+			kind = "ptr"
+		} else if n, _ := fmt.Sscanf(l, "fail cg %d %d", &f, &idx); n == 2 {
+			kind = "cg"
+		} else {
+			continue
+		}
+		fails++
+		if f >= len(d.Funcs) {
+			stray++
+			continue
+		}
+		fn := d.Funcs[f]
+		ok := fn == victim || fn.Parent() == victim
+		if !ok && idx < len(d.Code[f]) {
+			if call, isCall := d.Code[f][idx].(ssa.CallInstruction); isCall {
+				if n := cg.Nodes[fn]; n != nil {
+					for _, e := range n.Out {
+						if e.Site == call && e.Callee.Func == victim {
+							ok = true
+						}
+					}
+				}
+			}
+		}
+		if !ok {
+			stray++
+			if len(strays) < 3 {
+				strays = append(strays, fmt.Sprintf("%s rule in %s #%d", kind, fn.String(), idx))
+			}
+		}
+	}
+	return fails, stray, fmt.Sprintf("no-effect(%s): %s; %d failing rule instances, %d elsewhere %v", victim.String(), out[0], fails, stray, strays)
 }
